@@ -51,12 +51,17 @@ def run(ctx):
     if not ok:
         ctx.violation("origin-source", fr.file_line(), "the origin is taken from `%s`, not from the first word of the image" % oe)
     regs = fr.expr(vals["reg"], 8)
-    rv = [formula.evaluate(x, {}) if x[0] != "unknown" else None for x in regs[2]] if regs[0] == "agg" else None
+    def _val(x):
+        try:
+            return formula.evaluate(x, {"prog": prog}) if x[0] != "unknown" else None
+        except (formula.Unknown, formula.Overflow):
+            return None      # not a constant (e.g. depends on a flag): reported below as a wrong initial value
+    rv = [_val(x) for x in regs[2]] if regs[0] == "agg" else None
     ctx.instance(1)
     ok = rv == [0, 0, 0, 0, 0, 0, 0, 0xFDFF]
     ctx.oblig(ok, {"registers": [hex(x) if x is not None else None for x in (rv or [])]}, "R0-R6 = 0, R7 = 0xFDFF")
     if not ok:
-        ctx.violation("initial-registers", sp_file_line(aggs[0].get("sp")), "initial registers are %s (expected seven zeros and R7 = 0xFDFF)" % rv)
+        ctx.violation("initial-registers", sp_file_line(aggs[0].get("sp")), "initial registers are %s (expected seven zeros and R7 = 0xFDFF; None = not a constant)" % rv)
     fl = fr.expr(vals["flag"], 4)
     ok = fl[0] == "agg" and fl[1][2] == "Uninit"
     ctx.instance(1)
